@@ -36,7 +36,8 @@ Definition chk04 (c : case) : nat :=
 (* C03.  1: the part map after the operation is not the model's   2: the bytes returned by get_part differ
    3: the saved file read back independently is not the part map of the document at the time of saving
    4: the saved file differs from the model's   5: abstraction broken
-   6: a part held in memory would be replaced by the file's content at the next read (time-stamp bookkeeping)   9: fidelity *)
+   6: a part held in memory would be replaced by the file's content at the next read (time-stamp bookkeeping)
+   7: save replaced a manifest.rdf that is held in memory and listed in the manifest (F35: reconciliation looks at the file)   9: fidelity *)
 Definition saved_matches (fs' : cfs) (d' : cdoc) (o : cop) : bool :=
   match is_save o, written fs' o with
   | Some (_, PXml, _), _ => true
@@ -49,6 +50,14 @@ Definition saved_matches (fs' : cfs) (d' : cdoc) (o : cop) : bool :=
 (* the manifest effect of del_part / add_file / import is C04's subject: not compared here *)
 Definition view_eqb_on (f : name -> bool) (fs1 : cfs) (d1 : cdoc) (fs2 : cfs) (d2 : cdoc) : bool :=
   forallb (fun n => opt_eqb ccont_eqb (cview fs1 d1 n) (cview fs2 d2 n)) (filter f (cnames fs1 d1 ++ cnames fs2 d2)).
+Definition rdf_replaced (fs : cfs) (d : cdoc) (o : cop) (fs' : cfs) (d' : cdoc) : bool :=
+  match is_save o, cview fs d RDF with
+  | Some _, Some _ =>
+      match m_get RDF (entries_of fs d) with
+      | Some m => negb (m =? EMPTYMT) && negb (opt_eqb ccont_eqb (cview fs' d' RDF) (cview fs d RDF))
+      | None => false end
+  | _, _ => false
+  end.
 Definition chk03 (c : case) : nat :=
   let '(fs, d, o, fs', d', r) := c in
   let '((fsm, dm), rm) := cstep FIXED (fs, d) o in
@@ -59,6 +68,7 @@ Definition chk03 (c : case) : nat :=
   else if match r with Done => negb (saved_matches fs' d' o) | _ => false end then 3
   else if negb (file_content_eqb (written fs' o) (written fsm o)) then 4
   else if wf_lost fsm dm fs' d' then 6
+  else if rdf_replaced fs d o fs' d' then 7
   else if doc_eqb d' dm && file_eqb (written fs' o) (written fsm o) then 0 else 9.
 (* C11 (save half).  1: the save changed the document in memory (strict comparison, generator masked)
    2: result differs   3: the file read back is not the document (layout-insensitive projection when pretty)
@@ -81,7 +91,8 @@ Definition chk11 (c : case) : nat :=
                     else if doc_eqb d' dm then 0 else 9
                 | _ => 0
                 end
-       | None => if negb (view_eqb fs' d' fsm dm) then 6 else if wf_lost fsm dm fs' d' then 8 else if doc_eqb d' dm then 0 else 9
+       | None => (* other operations are C03's subject: agreement with the model is recorded as fidelity only *)
+                 if wf_lost fsm dm fs' d' then 8 else if view_eqb fs' d' fsm dm && doc_eqb d' dm then 0 else 9
        end.
 
 (* C10 (document half).  A case carries the twin (the other one of original / clone; empty document when there is none).
@@ -103,10 +114,8 @@ Definition chk10 (c : case10) : nat :=
            else if doc_eqb d' clonem && (negb (has_twin tw') || doc_eqb tw' origm) then 0 else 9
        | _ =>
            if has_twin tw && negb (doc_eqb tw' tw && view_eqb_strict fs' tw' fs tw) then 4
-           else if negb (view_eqb fs' d' fsm dm) then 6
-           else if negb (out_eqb r rm) then 7
            else if wf_lost fsm dm fs' d' then 8
-           else if doc_eqb d' dm then 0 else 9
+           else if view_eqb fs' d' fsm dm && out_eqb r rm && doc_eqb d' dm then 0 else 9   (* the step itself is C03's subject *)
        end.
 
 (* which variant of the code does the implementation follow on this step? (diagnosis only) *)
